@@ -125,7 +125,8 @@ def _header(draw: st.DrawFn) -> dict[str, Any] | None:
 
 @st.composite
 def _method(
-    draw: st.DrawFn, idx: int, kinds: list[str], faults: bool, dense_logs: bool, init_faults: bool | None = None, min_steps: int = 0
+    draw: st.DrawFn, idx: int, kinds: list[str], faults: bool, dense_logs: bool, init_faults: bool | None = None, min_steps: int = 0,
+    unions: bool = False,
 ) -> dict[str, Any]:
     kind = draw(st.sampled_from(kinds))
     params = draw(_params())
@@ -144,6 +145,10 @@ def _method(
         m["behaviour"] = {"logs": draw(_logs(dense=dense_logs)), "action": action}
         return m
     m["header"] = draw(_header())
+    if unions:
+        u = draw(st.sampled_from([None, None, None, "base_first", "derived_first"]))
+        if u:
+            m["union"] = u
     m["out_cols"] = draw(_cols())
     init_ops: list[st.SearchStrategy[dict[str, Any]]] = [st.just({"op": "ok"})] * 4 + [_raise_action]
     if faults if init_faults is None else init_faults:
@@ -204,9 +209,10 @@ def program_specs(
     max_calls: int = 5,
     init_faults: bool | None = None,
     min_steps: int = 0,
+    unions: bool = False,
 ) -> dict[str, Any]:
     n = draw(st.integers(1, max_methods))
-    methods = [draw(_method(i, list(kinds), faults, dense_logs, init_faults, min_steps)) for i in range(n)]
+    methods = [draw(_method(i, list(kinds), faults, dense_logs, init_faults, min_steps, unions)) for i in range(n)]
     calls = draw(st.lists(_call(methods, early_exit), min_size=1, max_size=max_calls))
     return {"methods": methods, "calls": calls}
 
@@ -251,7 +257,19 @@ def generate_source(spec: dict[str, Any]) -> str:
             lines += [""]
         sname = f"S{mid}"
         base = "ProducerState" if m["kind"] == "producer" else "ExchangeState"
-        lines += ["@dataclass", f"class {sname}({base}):", "    run_id: str", "    mid: int", "    cursor: int = 0"]
+        union = m.get("union")
+        if union:
+            # the method is declared with a union of two state classes related by inheritance and returns the DERIVED
+            # one; the base member has the same fields but a body that must never run for this stream
+            bname = f"S{mid}B"
+            lines += ["@dataclass", f"class {bname}({base}):", "    run_id: str", "    mid: int", "    cursor: int = 0"]
+            if m["kind"] == "producer":
+                lines += ["    def produce(self, out: OutputCollector, ctx: CallContext) -> None:", "        RT.wrong_state(self)"]
+            else:
+                lines += ["    def exchange(self, input: AnnotatedBatch, out: OutputCollector, ctx: CallContext) -> None:", "        RT.wrong_state(self)"]
+            lines += ["    def on_cancel(self, ctx: CallContext) -> None:", "        RT.wrong_state(self)", ""]
+            base = bname
+        lines += ["@dataclass", f"class {sname}({base}):"] + ([] if union else ["    run_id: str", "    mid: int", "    cursor: int = 0"])
         if m["kind"] == "producer":
             lines += ["    def produce(self, out: OutputCollector, ctx: CallContext) -> None:", "        RT.produce(self, out, ctx)"]
         else:
@@ -260,7 +278,8 @@ def generate_source(spec: dict[str, Any]) -> str:
                 "        RT.exchange(self, input, out, ctx)",
             ]
         lines += ["    def on_cancel(self, ctx: CallContext) -> None:", "        RT.on_cancel(self, ctx)", ""]
-        ann = f"Stream[{sname}, {hname}]" if m["header"] is not None else f"Stream[{sname}]"
+        stype = sname if not union else (f"S{mid}B | {sname}" if union == "base_first" else f"{sname} | S{mid}B")
+        ann = f"Stream[{stype}, {hname}]" if m["header"] is not None else f"Stream[{stype}]"
         proto += [f"    def {name}(self{_sig(params)}) -> {ann}: ..."]
         impl += [
             f"    def {name}(self{_sig(params)}, ctx: CallContext = None) -> {ann}:",
